@@ -31,36 +31,62 @@ class Budget(BaseException):
     """Raised by the tracer when the step budget is exhausted (a hang)."""
 
 
+MON = sys.monitoring
+TOOL = 4  # an otherwise unused sys.monitoring tool id
+
+
 class Stepper:
-    def __init__(self, budget: int):
+    """Counts line events of liquid/ code with sys.monitoring.
+
+    (sys.settrace is not usable here: CPython silently switches tracing off when
+    calling the trace function itself hits the recursion limit, which is exactly
+    the situation under test.)
+    """
+
+    def __init__(self) -> None:
+        self.budget = 0
+        self.steps = 0
+        if MON.get_tool(TOOL) is None:
+            MON.use_tool_id(TOOL, "vf-c09")
+        MON.register_callback(TOOL, MON.events.LINE, self.on_line)
+
+    def on_line(self, code, line):  # noqa: ARG002
+        fn = code.co_filename
+        if "/liquid/" not in fn or "/verif/" in fn:
+            return MON.DISABLE
+        self.steps += 1
+        if self.steps > self.budget:
+            MON.set_events(TOOL, 0)
+            raise Budget()
+        return None
+
+    def start(self, budget: int) -> None:
         self.budget = budget
         self.steps = 0
+        MON.set_events(TOOL, MON.events.LINE)
 
-    def _local(self, frame, event, arg):
-        if event == "line":
-            self.steps += 1
-            if self.steps > self.budget:
-                raise Budget()
-        return self._local
+    def stop(self) -> None:
+        MON.set_events(TOOL, 0)
 
-    def __call__(self, frame, event, arg):
-        if event == "call" and "/liquid/" in frame.f_code.co_filename and "/verif/" not in frame.f_code.co_filename:
-            return self._local
-        return None
+
+_STEPPER: dict = {}
 
 
 def run_traced(fn, budget: int):
     """(outcome, steps, cpu_seconds); outcome ("budget",) when the step budget ran out."""
-    st_ = Stepper(budget)
+    import os
+
+    if _STEPPER.get("pid") != os.getpid():
+        _STEPPER.update(pid=os.getpid(), st=Stepper())
+    st_ = _STEPPER["st"]
     t0 = time.process_time()
-    prev = sys.gettrace()
-    sys.settrace(st_)
+    st_.start(budget)
     try:
         o = oc.outcome_of(fn)
     except Budget:
         o = ("budget",)
     finally:
-        sys.settrace(prev)
+        st_.stop()
     return o, st_.steps, time.process_time() - t0
 
 
@@ -212,15 +238,65 @@ def pumps(sizes: list):
                 yield pre + frag * k + suf
 
 
+OPENERS = {
+    "if": ("{% if a %}", "{% endif %}"), "unless": ("{% unless a %}", "{% endunless %}"), "case": ("{% case a %}", "{% endcase %}"),
+    "for": ("{% for i in a %}", "{% endfor %}"), "tablerow": ("{% tablerow i in a %}", "{% endtablerow %}"),
+    "capture": ("{% capture c %}", "{% endcapture %}"), "comment": ("{% comment %}", "{% endcomment %}"), "raw": ("{% raw %}", "{% endraw %}"),
+    "ifchanged": ("{% ifchanged %}", "{% endifchanged %}"), "macro": ("{% macro m %}", "{% endmacro %}"), "block": ("{% block b %}", "{% endblock %}"),
+    "with": ("{% with x: 1 %}", "{% endwith %}"), "translate": ("{% translate %}", "{% endtranslate %}"), "doc": ("{% doc %}", "{% enddoc %}"),
+    "liquid": ("{% liquid\nif a\n", "endif\n%}"),
+}
+BRANCHES = ["{% else %}", "{% elsif b %}", "{% when 1 %}", "{% when 1, 2 or 3 %}", "{% else %}", "{% plural %}", "{% break %}", "{% continue %}", "{% else b %}", "{% elsif %}", "{% when %}"]
+LEAVES = ["x", " ", "{{ a }}", "{{ a | upcase }}", "{% assign x = 1 %}", "{% echo a %}", "{% # c %}", "{% cycle 1, 2 %}", "{% increment n %}", "\n", "{% include 'p' %}", "{{", "{%"]
+
+
+def skeleton(r, depth: int = 0) -> str:
+    """Block structure with branch tags of any kind anywhere, duplicated, and end tags missing or swapped."""
+    out = []
+    for _ in range(r.randint(1, 4)):
+        c = r.random()
+        if c < 0.35 and depth < 4:
+            kind = r.choice(sorted(OPENERS))
+            o, e = OPENERS[kind]
+            out.append(o)
+            out.append(skeleton(r, depth + 1))
+            q = r.random()
+            if q < 0.8:
+                out.append(e)
+            elif q < 0.9:
+                out.append(OPENERS[r.choice(sorted(OPENERS))][1])
+        elif c < 0.65:
+            out.append(r.choice(BRANCHES))
+        else:
+            out.append(r.choice(LEAVES))
+    return "".join(out)
+
+
+VOCAB = [o for o, _ in OPENERS.values()] + [e for _, e in OPENERS.values()] + BRANCHES[:4] + ["x", "{{ a }}"]
+
+
+def sequences(ctx: core.Ctx, shard: int, nshards: int, maxlen: int) -> None:
+    import itertools
+
+    idx = 0
+    for n in range(1, maxlen + 1):
+        for seq in itertools.product(VOCAB, repeat=n):
+            idx += 1
+            if idx % nshards == shard:
+                ctx.run({"kind": "parse", "src": "".join(seq), "mode": "strict" if idx % 2 else "lax"}, enumerated=True)
+
+
 @st.composite
 def sources(draw):
     r = core.rng(draw)
     m = gm.Mut(r)
     c = r.random()
     prof = gg.Profile(nodes=list(gg.STD_NODES) + gg.EXTRA_NODES, partials=["p"], odd_strings=True, ternary=True, logical_not=True, parens=True)
-    if c < 0.3:
+    if c < 0.2:
         src = m.soup(1, 25)
-    elif c < 0.35:
+    elif c < 0.45:
+        src = skeleton(r)
+    elif c < 0.5:
         src = m.liquid_soup()
     else:
         base = gg.to_source(gg.Gen(r, prof).template())
@@ -278,6 +354,7 @@ def campaign(ctx: core.Ctx, tier: str, shard: int, nshards: int) -> None:
     for i, src in enumerate(pumps([200, 2000, 5000] if quick else [200, 2000, 5000, 20000])):
         if i % nshards == shard:
             ctx.run({"kind": "parse", "src": src, "mode": "strict" if i % 2 else "lax"})
+    sequences(ctx, shard, nshards, 2 if quick else 3)
     for i, case in enumerate(families(tier, ctx.seed)):
         if i % nshards == shard:
             ctx.run(case, enumerated=True)
@@ -286,7 +363,7 @@ def campaign(ctx: core.Ctx, tier: str, shard: int, nshards: int) -> None:
         if (i + 3) % nshards == shard:
             ctx.run({"kind": "family", "edge": edge, "kinds": ["if"], "d": 1, "mode": "lax", "fan": 2})
             ctx.run({"kind": "family", "edge": edge, "kinds": ["if"], "d": 1, "mode": "strict", "fan": 2})
-    core.drive(sources(), ctx.run, n=(1500 if quick else 60000) // nshards, seed=core.sub_seed(ctx.seed, shard))
+    core.drive(sources(), ctx.run, n=(4000 if quick else 100000) // nshards, seed=core.sub_seed(ctx.seed, shard))
 
 
 def _lax_fanout(case) -> bool:
@@ -300,7 +377,8 @@ def finish_kwargs(ctx: core.Ctx, tier: str) -> dict:
     return {
         "case_predicates": KNOWN_PREDICATES,
         "rule": (
-            "(a) parse: every prefix of generated sources (<= 400 chars), mutated sources, token soup and pumped sources "
+            "(a) parse: every prefix of generated sources (<= 400 chars), every sequence of up to " + ("2" if tier == "quick" else "3") + f" of {len(VOCAB)} block/branch/end tags, "
+            "random block skeletons with branch tags of any kind anywhere and missing or swapped end tags, mutated sources, token soup and pumped sources "
             f"(each of {len(PUMP_FRAGMENTS)} lexeme fragments repeated up to {'5' if tier == 'quick' else '20'} KB, bare and inside a "
             "block) must finish with a template or a LiquidError within 20000 + 1500*len line events of liquid/ code. "
             "(b) render: families of 1-3 mutually recursive templates - edge in {include, render, render-for, "
